@@ -1,6 +1,7 @@
 package prog
 
 import (
+	"encoding/hex"
 	"fmt"
 	"strings"
 
@@ -153,9 +154,104 @@ func (s *Step) SetModel(raw string) {
 					s.Model = "code=NotFound" + strings.TrimPrefix(s.Model, "code="+c)
 				}
 			}
+			for _, c := range []string{"InvalidArgument", "InvalidRequest"} {
+				if codeOf(s.Model) == c {
+					s.Model = "code=HTTP400" + strings.TrimPrefix(s.Model, "code="+c)
+				}
+			}
 		}
 		s.Impl = strings.TrimRight(s.Impl, " ")
+		if s.Op.Kind == "listVersions" {
+			s.Model = canonVersionsField(s.Model)
+		}
+		if s.Op.Kind == "deleteObjects" {
+			s.Model = sortListField(s.Model, "deleted=")
+		}
 	}
+}
+
+// canonVersionsField sorts, per key, the non-latest entries of a `versions=` field by version id
+// (newest ULID first, null last): the XML answer lists versions and delete markers in two
+// separate sequences, so their relative order is not observable.
+func canonVersionsField(line string) string {
+	fs := strings.Split(line, " ")
+	for i, f := range fs {
+		if !strings.HasPrefix(f, "versions=") || f == "versions=" {
+			continue
+		}
+		ents := strings.Split(f[len("versions="):], ",")
+		sortVersionEntries(ents)
+		fs[i] = "versions=" + strings.Join(ents, ",")
+	}
+	return strings.Join(fs, " ")
+}
+
+func sortVersionEntries(ents []string) {
+	key := func(e string) (k string, latest bool, vid string) {
+		p := strings.Split(e, ":")
+		if len(p) < 3 {
+			return e, false, ""
+		}
+		v, _ := hexDecode(p[1])
+		return p[0], p[2] == "L", v
+	}
+	// stable insertion sort by (key hex order is fine: same key groups stay together as emitted)
+	for i := 1; i < len(ents); i++ {
+		for j := i; j > 0; j-- {
+			k1, l1, v1 := key(ents[j-1])
+			k2, l2, v2 := key(ents[j])
+			if k1 != k2 {
+				break
+			}
+			swap := false
+			if l1 != l2 {
+				swap = l2
+			} else if !l1 {
+				swap = versionNewer(v2, v1)
+			}
+			if !swap {
+				break
+			}
+			ents[j-1], ents[j] = ents[j], ents[j-1]
+		}
+	}
+}
+
+func hexDecode(s string) (string, error) {
+	if s == "-" {
+		return "", nil
+	}
+	b, err := hex.DecodeString(s)
+	return string(b), err
+}
+
+// RunAdaptive is Run for programs whose next op depends on what the implementation answered so
+// far (version ids, upload ids): next returns nil when the program is complete.
+func RunAdaptive(w *World, drv *lib.Driver, setup Setup, next func(hist []*Step) *Op) ([]*Step, error) {
+	var steps []*Step
+	lines := setup.Lines(w.Root.Access)
+	nsetup := len(lines)
+	for {
+		o := next(steps)
+		if o == nil {
+			break
+		}
+		obs := w.Exec(o)
+		steps = append(steps, &Step{Op: o, Impl: obs.Line(), Obs: obs})
+		lines = append(lines, o.ModelLine(obs))
+	}
+	out, err := drv.Ask(lines)
+	if err != nil {
+		return steps, err
+	}
+	for i, s := range steps {
+		raw := out[nsetup+i]
+		if raw == "bad-op" {
+			return steps, fmt.Errorf("model driver rejected line: %s", lines[nsetup+i])
+		}
+		s.SetModel(raw)
+	}
+	return steps, nil
 }
 
 // Describe renders a step list (up to and including index upto) for samples and replays.
@@ -165,7 +261,38 @@ func Describe(steps []*Step, upto int) []string {
 		if i > upto {
 			break
 		}
-		out = append(out, fmt.Sprintf("%s %s %s/%s -> impl[%s] model[%s]", s.Op.Caller, s.Op.Kind, s.Op.B, s.Op.K, s.Impl, s.Model))
+		extra := ""
+		if s.Op.Vid != "" {
+			extra += "?versionId=" + s.Op.Vid
+		}
+		if s.Op.Kind == "copyObject" {
+			extra += " <- " + s.Op.SB + "/" + s.Op.SK
+			if s.Op.SVid != "" {
+				extra += "?versionId=" + s.Op.SVid
+			}
+			if s.Op.Put != nil {
+				extra += " REPLACE"
+			}
+		}
+		if s.Op.Kind == "deleteObjects" {
+			extra += fmt.Sprintf(" %v", s.Op.Keys)
+		}
+		if s.Op.Kind == "putVersioning" {
+			extra += fmt.Sprintf(" on=%v", s.Op.On)
+		}
+		out = append(out, fmt.Sprintf("%s %s %s/%s%s -> impl[%s] model[%s]", s.Op.Caller, s.Op.Kind, s.Op.B, s.Op.K, extra, s.Impl, s.Model))
 	}
 	return out
+}
+
+func sortListField(line, name string) string {
+	fs := strings.Split(line, " ")
+	for i, f := range fs {
+		if strings.HasPrefix(f, name) && len(f) > len(name) {
+			e := strings.Split(f[len(name):], ",")
+			sortStrings(e)
+			fs[i] = name + strings.Join(e, ",")
+		}
+	}
+	return strings.Join(fs, " ")
 }
